@@ -152,6 +152,9 @@ pub fn run(quick: bool, w: &mut Worker, stats: &mut Stats) {
             frag::for_sequences(frag::FRAGMENTS, kk, first, "", "", &mut |x| unit(w, stats, x, "fragments", kk <= 2));
         }
     }
+    for t in frag::long_texts() {
+        unit(w, stats, &t, "long-texts", false);
+    }
     let kb = if quick { 3 } else { 4 };
     for kk in 1..=kb {
         for first in 0..frag::BODY_FRAGMENTS.len() {
